@@ -51,7 +51,7 @@ def score(ad, env, td_final, hists, scale):
         verdicts = ["accept"] * len(hists)
     except NotImplementedError:
         verdicts = ["none"] * len(hists)
-    except Exception:
+    except Exception as batch_exc:
         verdicts = []
         for r in range(len(hists)):
             try:
@@ -59,6 +59,10 @@ def score(ad, env, td_final, hists, scale):
                 verdicts.append("accept")
             except Exception as e:  # AssertionError or a crash inside the checker
                 verdicts.append("reject:" + type(e).__name__ + ":" + str(e)[:60])
+        if len(hists) > 1 and all(v == "accept" for v in verdicts):
+            # every row is accepted alone but the same rows are rejected as one batch: the checker's verdict
+            # depends on the batch-mates (reported on the first row)
+            verdicts[0] = "reject:only-when-batched:" + type(batch_exc).__name__ + ":" + str(batch_exc)[:50]
     for r in range(len(hists)):
         out.append((ad.scale_reward(float(rew[r]), scale[r]), verdicts[r]))
     return out
